@@ -644,7 +644,7 @@ def c19(tier, seed):
 
 
 def c09(tier, seed):
-    return stream_obs(['h_sgetb32', 'h_sgetb64', 'h_sgetble32', 'h_sgetbs']) + crc_obs(tier) + state_obs(tier) + crc_record_obs()
+    return stream_obs(['h_sgetb32', 'h_sgetb64', 'h_sgetble32', 'h_sgetbs']) + crc_obs(tier) + state_obs(tier) + crc_record_obs() + mapguard_obs()
 
 
 NSEC_ENC = dict(region='nsec_enc', file='cmdline/state.c', begin='/* encode STAT_NSEC_INVALID as 0 */', end='sputb64(inode, f);', end_first_after=True, max_lines=8, expect_loops=0,
@@ -670,6 +670,25 @@ def crc_record_obs():
     return [Ob('state.N_record.crc_check', 'harness/h_staterec.c', 'h_crc_record', inject=[NSEC_ENC, NSEC_DEC, CRC_CHECK], defs={'VERIF_CRC_REGION': None}, unwind=4, small_path=True, timeout=600, mem=6, cost=3,
                functions=["state_read_content: region 'N' record (cmdline/state.c, extracted mechanically)"],
                note='every computed / stored CRC value and a failing read; scrc and sgetble32 replaced by recording stubs')]
+
+
+def _map_region(letter, scope):
+    return dict(region='map_%s' % letter, file='cmdline/state.c', scope=scope, begin='ret = sgetb32(f, &mapping);', include_begin=True,
+                end='disk = tommy_array_get(&disk_mapping, mapping);', end_first_after=True, include_end=True, max_lines=12, expect_loops=0,
+                proto='static struct snapraid_disk *region_map_%s(STREAM *f, const char *path, uint32_t mapping_max, tommy_array *disk_mapping_p)' % letter,
+                prologue='\tint ret;\n\tuint32_t mapping;\n\tstruct snapraid_disk *disk;', epilogue='\treturn disk;')
+
+
+MAP_REGIONS = [_map_region('f', "\t\tif (c == 'f') {"), _map_region('h', "} else if (c == 'h') {"), _map_region('s', "} else if (c == 's') {"),
+               _map_region('a', "} else if (c == 'a') {"), _map_region('r', "} else if (c == 'r') {")]
+
+
+def mapguard_obs():
+    names = dict(f='file', h='hole', s='symlink', a='hardlink', r='dir')
+    return [Ob('state.%s_record.mapping_guard' % l, 'harness/h_staterec.c', 'h_map_guard', inject=[NSEC_ENC, NSEC_DEC] + MAP_REGIONS, defs={'VERIF_MAP_REGIONS': None, 'MAP_RECORD': 'region_map_%s' % l},
+               unwind=4, small_path=True, timeout=600, mem=6, cost=2,
+               functions=["state_read_content: region '%s' (%s) record, disk mapping index (cmdline/state.c, extracted mechanically)" % (l, names[l])],
+               note='every 32-bit index, every number of mapped disks, short read; tommy_array_get / sgetb32 / os_abort by checking stubs') for l in 'fhsar']
 
 
 def staterec_obs(tier):
